@@ -118,7 +118,6 @@ def hCsv : Handler := fun r =>
       let lines := toCsv opts files
       match r.mode with
       | .model =>
-        if padPanics opts lines then "panic" else
         let cols := columns opts lines
         let hdr := cols.headD 0
         let dcols := cols.tail
@@ -134,12 +133,7 @@ def hCsv : Handler := fun r =>
           let rt := if b.seqs == files.map (·.map stripExpanded) then "same" else "diff"
           pre ++ s!" back=ok seq={b.seq} w=" ++ " / ".intercalate (b.seqs.map fun f => " ".intercalate (f.map printMsg)) ++ s!" rt={rt}"
       | .kf =>
-        let ids := (if hasInt64Scalar files then ["KF-C19-1"] else []) ++
-          (if lines.any (fun l => extraCommas l != 0) then ["KF-C19-2"] else []) ++
-          (if redefinesDesc files then ["KF-C19-3"] else []) ++
-          (if hasMfgRangeName files then ["KF-C19-4"] else []) ++
-          (if hasPayloadNaN files then ["KF-C19-5"] else [])
-        if ids.isEmpty then "-" else ",".intercalate ids
+        "-"
       | .prop => propCsv opts files r.impl
       | .spec => "n/a"
     | _, _ => if r.mode == .model then "bad-op" else if r.mode == .kf then "-" else "n/a"
